@@ -20,6 +20,8 @@ FILE_PROPS = {
     'openfilter/observability/config.py': ['C16'],
     'openfilter/observability/lineage.py': ['C16', 'C18'],
     'openfilter/cli/common.py': ['C12'],
+    'openfilter/filter_runtime/dlcache.py': ['C15'],
+    'openfilter/filter_runtime/filters/image_in.py': ['C15'],
 }
 
 
